@@ -169,6 +169,7 @@ class Assembly:
         body, c = X.r11_split_or_guard(body); log.append(('R11 or-pattern/guard split', c))
         # structure of the ORIGINAL body (before the logged substitutions): a changed number of loops / closures is exit 2
         nl, nc = X.count_loops(body), X.count_closures(body)
+        _lock_check(a, item, nl, nc)
         if 'loops' in a and int(a['loops']) != nl:
             raise Undecided('fn %s: expected %s loops, found %d' % (a['name'], a['loops'], nl))
         if 'closures' in a and int(a['closures']) != nc:
@@ -259,6 +260,35 @@ class Assembly:
                     raise Undecided('template error: duplicate label %s' % lab)
                 res[lab] = no
         return res
+
+
+LOCK_PATH = os.path.join(VERIF, 'contracts', 'structure.lock.json')
+_LOCK = None
+
+
+def _lock_check(a, item, nl, nc):
+    """the number of loops and closures of every function under contract is pinned (contracts/structure.lock.json, written by
+    tools/lock_structure.py on the tree the contracts were developed against). Splices are keyed by loop / closure ordinal and
+    un-annotated new closures carry no specification, so a structural change means the contracts no longer describe this body:
+    UNDECIDED (exit 2), never an alarm."""
+    global _LOCK
+    import json
+    key = '%s :: %s :: %s' % (item['file'], item['impl'] or '(free)', a['name'])
+    if os.environ.get('VX_LOCK_WRITE'):
+        try:
+            cur = json.load(open(LOCK_PATH))
+        except Exception:
+            cur = {}
+        cur[key] = [nl, nc]
+        json.dump(cur, open(LOCK_PATH, 'w'), indent=1, sort_keys=True)
+        return
+    if _LOCK is None:
+        try:
+            _LOCK = json.load(open(LOCK_PATH))
+        except Exception:
+            _LOCK = {}
+    if key in _LOCK and list(_LOCK[key]) != [nl, nc]:
+        raise Undecided('structure of %s changed: %d loops / %d closures, contracts were written for %d / %d' % (key, nl, nc, _LOCK[key][0], _LOCK[key][1]))
 
 
 def _generics(text, kind, name):
